@@ -1,6 +1,10 @@
-"""setup and self-tests (DESIGN §2.8)."""
+"""setup and self-tests (DESIGN §2.8, §11.7)."""
+import json
 import os
+import shutil
+import subprocess
 import sys
+import time
 
 from dtsim import core
 
@@ -27,6 +31,139 @@ def setup():
     return 0
 
 
+# ------------------------------------------------------------------ determinism
+def determinism(n=200):
+    """Every seed executed in four configurations: 16 workers, 1 worker, 16 workers under another PYTHONHASHSEED,
+    and again 16 workers; history digests must be identical.  Generators must yield identical JSON under two hash seeds."""
+    from dtsim import engine_replica
+
+    t0 = time.monotonic()
+    focuses = ["C20", "C10", "C09", "C11", "C14"]
+    tasks = [{"tid": "h%d" % i, "kind": "gen", "seed": 7_000_000 + i, "focus": focuses[i % 5]} for i in range(n)]
+    tasks += [{"tid": "e%d" % i, "kind": "enum", "seed": 7_100_000 + i, "focus": "C20"} for i in range(n // 10)]
+    runs = []
+    for label, nw, hs in (("16 workers", 16, "0"), ("1 worker", 1, "0"), ("16 workers, PYTHONHASHSEED=12345", 16, "12345"), ("16 workers again", 16, "0")):
+        sub = tasks if nw > 1 else tasks[: max(20, n // 5)]
+        res, st = core.run_pool("project", sub, nworkers=nw, env=core.worker_env(hashseed=hs), task_timeout=300)
+        for r in res.values():
+            if "harness_error" in r:
+                print("HARNESS-ERROR", r["harness_error"][:500])
+                return core.EXIT_HARNESS
+        runs.append((label, {t: r["digest"] for t, r in res.items()}))
+        print("  project engine, %s: %d runs in %.1fs" % (label, len(res), st["wall_s"]))
+    base = runs[0][1]
+    bad = 0
+    for label, digs in runs[1:]:
+        for t, d in digs.items():
+            if base[t] != d:
+                bad += 1
+                print("  DIVERGENCE task %s between '16 workers' and '%s'" % (t, label))
+    # generators under two hash seeds
+    outs = []
+    for hs in ("0", "987"):
+        code = ("import sys, json; sys.path.insert(0, %r); from dtsim import gen_project, engine_replica, core;"
+                "print(core.digest([gen_project.gen_scenario(s, f) for s in range(40) for f in ('C20','C14')]));"
+                "print(core.digest([engine_replica.gen_corpus(s, p, 30) for s in range(5) for p in ('C12','C07','C18')]));"
+                "print(core.digest([engine_replica.gen_replicas(s, 'C12', 30, 8, 'quick') for s in range(5)]))") % core.VERIF
+        p = subprocess.run([core.PYTHON, "-c", code], env=core.worker_env(hashseed=hs), stdout=subprocess.PIPE, stderr=subprocess.PIPE)
+        outs.append(p.stdout)
+        if p.returncode:
+            print(p.stderr.decode()[-800:])
+            return core.EXIT_HARNESS
+    if outs[0] != outs[1]:
+        bad += 1
+        print("  DIVERGENCE generators differ between PYTHONHASHSEED 0 and 987")
+    else:
+        print("  generators identical under PYTHONHASHSEED 0 and 987")
+    # replica engine: the same replica twice
+    jobs = engine_replica.gen_corpus(4242, "C12", 60)
+    reps = engine_replica.gen_replicas(4242, "C12", 60, 6, "quick")
+    a, _ = engine_replica.run_replicas("C12", jobs, reps)
+    b, _ = engine_replica.run_replicas("C12", jobs, reps)
+    if core.digest(a) != core.digest(b):
+        bad += 1
+        print("  DIVERGENCE replica engine: two executions of the same replicas differ")
+    else:
+        print("  replica engine: 6 replicas x 2 executions identical")
+    # alias engine
+    at = [{"tid": "a%d" % i, "kind": "explore", "seed": 99_000 + i, "seq_len": 2, "sample4": 10} for i in range(16)]
+    r1, _ = core.run_pool("alias", at, nworkers=8)
+    r2, _ = core.run_pool("alias", at, nworkers=2)
+    if core.digest({k: [v["violations"], v["stats"]] for k, v in r1.items()}) != core.digest({k: [v["violations"], v["stats"]] for k, v in r2.items()}):
+        bad += 1
+        print("  DIVERGENCE alias engine")
+    else:
+        print("  alias engine: 16 descriptions x 2 executions identical")
+    print("determinism self-test: %s (%.1fs)" % ("FAILED" if bad else "ok", time.monotonic() - t0))
+    return core.EXIT_HARNESS if bad else 0
+
+
+# ------------------------------------------------------------------ sensitivity
+def _scratch_copy(diff):
+    base = "/dev/shm" if os.path.isdir("/dev/shm") else os.environ.get("TMPDIR", "/tmp")
+    dst = os.path.join(base, "dtsim-mutant-%d" % os.getpid())
+    if os.path.exists(dst):
+        shutil.rmtree(dst)
+    # a copy of the *working tree* of the repository under test
+    shutil.copytree(core.REPO, dst, ignore=shutil.ignore_patterns(".git", "__pycache__", "*.egg-info", ".pytest_cache"))
+    p = subprocess.run(["patch", "-p1", "-s", "-i", diff], cwd=dst, stdout=subprocess.PIPE, stderr=subprocess.STDOUT)
+    if p.returncode:
+        shutil.rmtree(dst, ignore_errors=True)
+        raise core.HarnessError("mutant %s does not apply: %s" % (diff, p.stdout.decode()[-400:]))
+    return dst
+
+
+def sensitivity(only=None, with_baseline=False):
+    """Apply each planted change to a scratch copy of the repository, require the owning quick check to exit 1 with a
+    VIOLATION whose replay reproduces, then delete the copy."""
+    d = os.path.join(core.VERIF, "selftest", "mutants")
+    dirs = [(os.path.join(d, n), n.split("-")[1], n) for n in sorted(os.listdir(d)) if n.endswith(".diff")]
+    sd = os.path.join(core.VERIF, "seeded")
+    if os.path.isdir(sd):
+        for n in sorted(os.listdir(sd)):
+            meta = os.path.join(sd, n, "meta.json")
+            if os.path.isfile(meta):
+                with open(meta) as f:
+                    m = json.load(f)
+                for prop in m.get("detected_by", [m["property"]]):
+                    dirs.append((os.path.join(sd, n, "patch.diff"), prop, "seeded/%s" % n))
+    failed = 0
+    for diff, prop, name in dirs:
+        if only and only not in name:
+            continue
+        t0 = time.monotonic()
+        scratch = _scratch_copy(diff)
+        try:
+            env = dict(os.environ, DTSIM_REPO=scratch)
+            env.pop("PYTHONHASHSEED", None)
+            if with_baseline:
+                b = subprocess.run([os.path.join(core.VERIF, "bin", "baseline_check.py"), scratch], stdout=subprocess.PIPE, stderr=subprocess.STDOUT)
+                print("  baseline on %s: %s" % (name, b.stdout.decode().strip().splitlines()[-1] if b.stdout else b.returncode))
+            p = subprocess.run([core.PYTHON, os.path.join(core.VERIF, "bin", "dtsim"), "check", prop, "--tier", "quick"], env=env, cwd=core.VERIF,
+                               stdout=subprocess.PIPE, stderr=subprocess.STDOUT, timeout=1800)
+            out = p.stdout.decode(errors="replace")
+            viol = [ln for ln in out.splitlines() if ln.startswith("VIOLATION")]
+            ok = p.returncode == 1 and viol
+            print("%s  %-55s %s rc=%d %d VIOLATION line(s) %.0fs" % ("ok  " if ok else "MISS", name, prop, p.returncode, len(viol), time.monotonic() - t0))
+            if not ok:
+                failed += 1
+                print("\n".join("      " + ln for ln in out.splitlines()[-6:]))
+            else:
+                sig = [ln for ln in out.splitlines() if ln.startswith("  signature:")]
+                if sig:
+                    print("      first:", sig[0][:260])
+        finally:
+            shutil.rmtree(scratch, ignore_errors=True)
+    print("sensitivity self-test: %d planted change(s) missed" % failed)
+    return core.EXIT_HARNESS if failed else 0
+
+
 def main(argv):
-    print("selftest: not implemented yet")
-    return 0
+    what = argv[0] if argv else "all"
+    rc = 0
+    if what in ("determinism", "all"):
+        rc |= determinism(int(argv[1]) if len(argv) > 1 and what == "determinism" else 200)
+    if what in ("sensitivity", "all"):
+        rest = [a for a in argv[1:] if not a.startswith("--")]
+        rc |= sensitivity(rest[0] if rest and what == "sensitivity" else None, with_baseline="--baseline" in argv)
+    return rc
